@@ -33,6 +33,8 @@ def handle (line : String) : String :=
     | "wire" :: rest => Wire.driverLine rest obs
     | "st" :: rest => Streams.driverLine rest obs
     | "pool" :: rest => Pool.driverLine rest obs
+    | "poolmt" :: rest => Pool.mtLine rest obs
+    | "conn" :: rest => Pool.connLine rest obs
     | "srv" :: rest => Server.driverLine rest obs
     | "srvk" :: rest => Server.kernelLine rest obs
     | "tls" :: rest => Tls.driverLine rest obs
